@@ -9,7 +9,9 @@ TYPES12 = [ag.INT, ag.BOOL, ag.BYTES, ag.VOID, ag.DATA, ag.TList(ag.INT), ag.TOp
            ag.TAdt("Box", ag.INT), ag.TAdt("Either", ag.INT, ag.BOOL), ag.TAdt("Acct"), ag.TList(ag.TAdt("Point")),
            ag.TOption(ag.TAdt("Shape")), ag.TTuple(ag.INT, ag.TAdt("Color"), ag.BYTES), ag.TList(ag.TList(ag.INT)),
            ag.TAdt("Box", ag.TOption(ag.BOOL)), ag.TAdt("Either", ag.TAdt("Point"), ag.TList(ag.BOOL)), ag.TList(ag.TOption(ag.INT)),
-           ag.TPair(ag.TAdt("Color"), ag.TList(ag.INT)), ag.TList(ag.TPair(ag.BYTES, ag.TAdt("Shape")))]
+           ag.TPair(ag.TAdt("Color"), ag.TList(ag.INT)), ag.TList(ag.TPair(ag.BYTES, ag.TAdt("Shape"))),
+           ag.TAdt("Tagged"), ag.TAdt("Wrap", ag.INT), ag.TAdt("Wrap", ag.BYTES), ag.TOption(ag.TAdt("Tagged")), ag.TAdt("Inner", ag.TAdt("Color")),
+           ag.TAdt("Rec5"), ag.TList(ag.TAdt("Rec5"))]
 
 
 def norm_schema(s):
@@ -60,6 +62,7 @@ def mutants(d, depth=3):
                 {"d": "M", "v": d["v"] + [[{"d": "B", "v": [1]}, {"d": "C", "tag": 9, "fs": []}]]}]
     else:
         out += [{"d": "C", "tag": d["tag"] + 1, "fs": d["fs"]}, {"d": "C", "tag": d["tag"] + 100, "fs": d["fs"]}, {"d": "L", "v": d["fs"]},
+                {"d": "C", "tag": 128, "fs": d["fs"]}, {"d": "C", "tag": 1000, "fs": d["fs"]},
                 {"d": "C", "tag": d["tag"], "fs": d["fs"] + [{"d": "I", "v": 0}]}, {"d": "I", "v": d["tag"]}]
         if d["tag"] > 0:
             out.append({"d": "C", "tag": d["tag"] - 1, "fs": d["fs"]})
